@@ -165,6 +165,7 @@ pharness!(c12_on_incoming_open, |s| {
 // @unwind 1
 // @bound every connection state (14) x error present/absent
 // @desc a peer's close: OPENED->CLOSE_RCVD (must still be answered), CLOSE_SENT/DISCARDING->END; the caller learns the peer's error; illegal elsewhere
+// @also C14
 pharness!(c12_on_incoming_close, |s| {
     let st = s.u8();
     s.assume(st <= N_STATES);
